@@ -445,8 +445,21 @@ def qualified_in_message(R, rng, seed, aid):
             return rpc(_returns=Integer, **kw)(f)
         S1 = type('QSvcA', (Service,), {'py_' + a: mk(a, _in_message_name='{%s}%s' % (Q, a))})
         S2 = type('QSvcB', (Service,), {'py_' + b: mk(b, _in_message_name=b)})
+        # bare methods: the request element is the argument itself, named after the method in the application's namespace -
+        # whatever namespace the argument's type lives in (a class of another namespace; a primitive, whose namespace is XSD's)
+        from spyne import ComplexModel, Unicode
+        TNS2, XSD = 'urn:vf:c11:types', 'http://www.w3.org/2001/XMLSchema'
+        Rec = type('QRec', (ComplexModel,), {'__namespace__': TNS2, 'i': Integer})
+
+        def mkbare(name, argtype):
+            def f(ctx, v):
+                calls.append(name)
+                return 1
+            f.__name__ = name
+            return rpc(argtype, _returns=Integer, _body_style='bare')(f)
+        S3 = type('QSvcC', (Service,), {'put_rec': mkbare('put_rec', Rec), 'put_text': mkbare('put_text', Unicode)})
         inp, outp = M.make_protocols(kind, None)
-        order = [S1, S2] if aid % 2 else [S2, S1]
+        order = [S1, S2, S3] if aid % 2 else [S3, S2, S1]
         try:
             app = Application(order, M.TNS, name='QApp', in_protocol=inp, out_protocol=outp)
         except Exception as e:
@@ -457,6 +470,8 @@ def qualified_in_message(R, rng, seed, aid):
         cases = [(a, M.TNS, [a]), (b, M.TNS, [b])]
         if kind != 'json':
             cases += [(a, Q, [a]), (b, Q, []), (a, Q2, []), (b, Q2, [])]
+            cases += [('put_rec', M.TNS, ['put_rec']), ('put_rec', TNS2, []), ('put_rec', XSD, []), ('put_text', M.TNS, ['put_text']),
+                      ('put_text', XSD, []), ('put_text', TNS2, []), ('QRec', TNS2, []), ('QRec', M.TNS, [])]
         for name, ns, want in cases:
             req = request(kind, name, ns)
             env, inpt = drive.make_environ(req['method'], req['path'], req['qs'], req['body'], req['content_type'])
